@@ -38,7 +38,43 @@ extern size_t g_i;
  * snapshot by assignment in E_fixed_size_read.  If the source text of the call changes the model no longer
  * applies and the harness times out (UNDECIDED), it cannot turn into a wrong verdict. */
 extern struct inflate_state *g_hdr_state;
-#define E_fixed_size_read g_hdr_state = state;
+#define E_fixed_size_read                                                                          \
+        g_hdr_state = state;                                                                       \
+        HR_CUT
+
+/* Cut points for isal_read_gzip_header.  The reader is a chain of up to six helper calls, each doing
+ * next_in += d; avail_in -= d.  "next_in + avail_in stays the end of the input" is what every later bounds
+ * check needs, and the SAT solver does not find that intermediate fact through six symbolic steps
+ * (> 1000 s).  HR_CUT, placed by the E_ hooks at the entry of each helper while it runs inlined in the
+ * gzip reader (g_top == 1), first ASSERTS the fact (an obligation like any other) and then restates it
+ * with GHOST_AXIOM so that the next segment starts from it.  An assumption that immediately follows an
+ * assertion of the very same condition adds nothing that is not proved; it is a lemma, not an axiom.
+ * g_in0/g_end/g_a0: entry snapshots (by assignment) taken in E_isal_read_gzip_header.  In the helpers'
+ * own harnesses and in the zlib reader g_top == 0 (requires) and the cut is skipped. */
+extern int g_top;
+extern uint8_t *g_in0;
+extern uint64_t g_end;
+extern uint32_t g_a0;
+#define HR_CUT_INV                                                                                 \
+        (__CPROVER_same_object(state->next_in, g_in0) && state->avail_in <= g_a0 &&                \
+         __CPROVER_POINTER_OFFSET(state->next_in) + state->avail_in == g_end)
+#define HR_CUT                                                                                     \
+        if (g_top) {                                                                               \
+                __CPROVER_assert(HR_CUT_INV, "lemma: next_in + avail_in is still the end of the input"); \
+                GHOST_AXIOM(HR_CUT_INV);                                                           \
+        }
+#define E_buffer_header_copy HR_CUT
+#define E_string_header_copy HR_CUT
+#define HR_TOP_ENTRY                                                                               \
+        g_top = 1;                                                                                 \
+        g_in0 = state->next_in;                                                                    \
+        g_a0 = state->avail_in;                                                                    \
+        g_end = __CPROVER_POINTER_OFFSET(state->next_in) + state->avail_in;
+#define HR_GHOST_DEFS                                                                              \
+        int g_top;                                                                                 \
+        uint8_t *g_in0;                                                                            \
+        uint64_t g_end;                                                                            \
+        uint32_t g_a0;
 #define HR_VM1(k)                                                                                  \
         if (n > (k))                                                                               \
                 g_hdr_state->tmp_in_buffer[off + (k)] = s[k];
@@ -62,7 +98,22 @@ extern struct inflate_state *g_hdr_state;
 /* fixed_size_read computes avail_in + tmp_in_size in 32 bits; with avail_in >= 2^32 - tmp_in_size the sum
  * wraps, the "not enough input" branch is taken and avail_in (~4 GiB) bytes are copied into the 328-byte
  * tmp_in_buffer.  Reported as a finding; the contracts assume it away: */
+#ifndef HR_MAX_AVAIL /* -DHR_MAX_AVAIL=0xffffffffu shows the finding: fixed_size_read then FAILS its pointer checks */
 #define HR_MAX_AVAIL (0xffffffffu - ISAL_DEF_MAX_HDR_SIZE)
+#endif
+
+/* Size bound of the default (quick-tier) instances of the contracts that contain a memcpy of symbolic
+ * length (buffer_header_copy, string_header_copy, isal_read_gzip_header): caller buffers and the input chunk
+ * are at most HR_SIZE_BOUND bytes.  Not needed for the proof -- the -DHR_UNBOUNDED instances (thorough tier)
+ * prove the same contracts for every size up to HR_MAX_AVAIL -- but without it a FAILING obligation makes the
+ * verifier print multi-gigabyte arrays into its counterexample trace and run out of memory (verdict
+ * UNDECIDED instead of FAILED).  XLEN <= 65535 < HR_SIZE_BOUND. */
+#ifdef HR_UNBOUNDED
+#define HR_BOUNDED(len)
+#else
+#define HR_SIZE_BOUND 0x10000u
+#define HR_BOUNDED(len) __CPROVER_requires((len) <= HR_SIZE_BOUND && state->avail_in <= HR_SIZE_BOUND)
+#endif
 
 #define HR_IN     __CPROVER_old(state->next_in)
 #define HR_A      __CPROVER_old(state->avail_in)
@@ -72,7 +123,14 @@ extern struct inflate_state *g_hdr_state;
 #define HR_V(k)   ((k) < HR_T ? HR_TMP(k) : HR_IN[(k) - HR_T])
 #define HR_USED   (HR_A - state->avail_in) /* input bytes consumed by this call */
 #define HR_IO_OK  (state->avail_in <= HR_A && state->next_in == HR_IN + HR_USED)
+/* the same fact as "end of input stays put": next_in + avail_in is invariant.  Stated in this shape in
+ * every helper contract it chains by plain equality when the helpers stand in for their bodies. */
+#define HR_END_OK                                                                                  \
+        (__CPROVER_same_object(state->next_in, HR_IN) &&                                           \
+         __CPROVER_POINTER_OFFSET(state->next_in) + state->avail_in ==                             \
+                 __CPROVER_POINTER_OFFSET(HR_IN) + HR_A)
 
+#define HR_NOT_TOP __CPROVER_requires(g_top == 0)
 #define HR_STATE_FRESH                                                                             \
         __CPROVER_requires(__CPROVER_is_fresh(state, sizeof(*state)))                              \
         __CPROVER_requires(__CPROVER_is_fresh(state->next_in, state->avail_in))
@@ -90,6 +148,7 @@ extern struct inflate_state *g_hdr_state;
 #define FS_CARRY(k)                                                                                \
         __CPROVER_ensures((HR_TA < FS_N && (k) < HR_TA) ==> state->tmp_in_buffer[k] == HR_V(k))
 #define C_fixed_size_read                                                                          \
+        HR_NOT_TOP                                                                                 \
         HR_STATE_FRESH                                                                             \
         __CPROVER_requires(__CPROVER_is_fresh(read_buf, sizeof(*read_buf)))                        \
         __CPROVER_requires(1 <= read_size && read_size <= 10)                                      \
@@ -112,7 +171,8 @@ extern struct inflate_state *g_hdr_state;
                            state->avail_in == HR_A - (FS_N - HR_T) &&                              \
                            *read_buf == (HR_T ? state->tmp_in_buffer : HR_IN)))                    \
         FS_BYTE(0) FS_BYTE(1) FS_BYTE(2) FS_BYTE(3) FS_BYTE(4)                                     \
-        FS_BYTE(5) FS_BYTE(6) FS_BYTE(7) FS_BYTE(8) FS_BYTE(9)
+        FS_BYTE(5) FS_BYTE(6) FS_BYTE(7) FS_BYTE(8) FS_BYTE(9)                                     \
+        __CPROVER_ensures(HR_END_OK)
 
 /* ------------------------------------------------------------------ buffer_header_copy
  * Move up to in_len bytes (what is left of the FEXTRA field) from the input to buf[offset..buffer_len);
@@ -128,10 +188,12 @@ extern struct inflate_state *g_hdr_state;
         ((BH_P_IN_SHORT && buffer_len - offset < in_len) ||                                        \
          (!BH_P_IN_SHORT && buffer_len - offset < state->avail_in))
 #define C_buffer_header_copy                                                                       \
+        HR_NOT_TOP                                                                                 \
         HR_STATE_FRESH                                                                             \
         __CPROVER_requires(buf == NULL ||                                                          \
                            (__CPROVER_is_fresh(buf, buffer_len) && offset <= buffer_len))          \
         __CPROVER_requires(in_len <= 0x7fffffff)                                                   \
+        HR_BOUNDED(buffer_len)                                                                     \
         __CPROVER_assigns(state->next_in, state->avail_in, state->count)                           \
         __CPROVER_assigns(buf != NULL && BH_P_OVF                                                  \
                           : __CPROVER_object_upto(buf + offset, buffer_len - offset);              \
@@ -143,7 +205,8 @@ extern struct inflate_state *g_hdr_state;
                           state->count == (int32_t) (in_len - BH_N))                               \
         __CPROVER_ensures(__CPROVER_return_value ==                                                \
                           (BH_OVF ? buf_error : (BH_LEN == in_len ? 0 : ISAL_END_INPUT)))          \
-        __CPROVER_ensures((buf != NULL && g_i < BH_N) ==> buf[offset + g_i] == HR_IN[g_i])
+        __CPROVER_ensures((buf != NULL && g_i < BH_N) ==> buf[offset + g_i] == HR_IN[g_i])         \
+        __CPROVER_ensures(HR_END_OK && state->avail_in <= HR_A)
 
 /* ------------------------------------------------------------------ string_header_copy
  * Move bytes of a NUL-terminated field (FNAME/FCOMMENT) to str_buf[offset..str_len); str_buf == NULL:
@@ -155,11 +218,13 @@ extern struct inflate_state *g_hdr_state;
 #define SH_L    (HR_USED - (__CPROVER_return_value == 0 ? 1u : 0u))
 #define SH_ROOM (str_len - offset)
 #define C_string_header_copy                                                                       \
+        HR_NOT_TOP                                                                                 \
         HR_STATE_FRESH                                                                             \
         __CPROVER_requires(str_buf == NULL ||                                                      \
                            (__CPROVER_is_fresh(str_buf, str_len) && offset <= str_len))            \
         __CPROVER_requires((uint32_t) state->count == offset)                                      \
         __CPROVER_requires(str_error != 0 && str_error != ISAL_END_INPUT)                          \
+        HR_BOUNDED(str_len)                                                                        \
         __CPROVER_requires(g_sn == g_i)                                                            \
         __CPROVER_assigns(state->next_in, state->avail_in, state->count, w_len_a, w_len_b)         \
         __CPROVER_assigns(str_buf != NULL                                                          \
@@ -179,7 +244,8 @@ extern struct inflate_state *g_hdr_state;
                           (state->avail_in == 0 && (uint32_t) state->count == offset + SH_L &&     \
                            (str_buf != NULL ==> SH_L < SH_ROOM)))                                  \
         __CPROVER_ensures((str_buf != NULL && __CPROVER_return_value == str_error) ==>             \
-                          (SH_L == SH_ROOM && (uint32_t) state->count == str_len))
+                          (SH_L == SH_ROOM && (uint32_t) state->count == str_len))                 \
+        __CPROVER_ensures(HR_END_OK)
 
 /* ------------------------------------------------------------------ isal_read_zlib_header (RFC 1950)
  *   CMF: bits 0-3 CM (8 = deflate), bits 4-7 CINFO;  FLG: bits 0-4 FCHECK, bit 5 FDICT, bits 6-7 FLEVEL;
@@ -205,12 +271,14 @@ extern struct inflate_state *g_hdr_state;
          (state->block_state == ISAL_ZLIB_DICT && 0 <= state->tmp_in_size &&                       \
           state->tmp_in_size < 4))
 #define C_isal_read_zlib_header                                                                    \
+        HR_NOT_TOP                                                                                 \
         HR_STATE_FRESH                                                                             \
         __CPROVER_requires(__CPROVER_is_fresh(zlib_hdr, sizeof(*zlib_hdr)))                        \
         __CPROVER_requires(HR_WF_ZLIB && state->avail_in <= HR_MAX_AVAIL)                          \
         __CPROVER_assigns(state->next_in, state->avail_in, state->tmp_in_size, state->block_state, \
-                          state->wrapper_flag, g_hdr_state,                                        \
-                          __CPROVER_object_upto(state->tmp_in_buffer, 4))                          \
+                          state->wrapper_flag, g_hdr_state, state->tmp_in_buffer[0],               \
+                          state->tmp_in_buffer[1], state->tmp_in_buffer[2],                        \
+                          state->tmp_in_buffer[3])                                                 \
         __CPROVER_assigns(zlib_hdr->info, zlib_hdr->level, zlib_hdr->dict_flag, zlib_hdr->dict_id) \
         __CPROVER_ensures(HR_IO_OK)                                                                \
         /* documented statuses, each with its exact condition on the bytes */                      \
@@ -292,8 +360,35 @@ extern struct inflate_state *g_hdr_state;
         __CPROVER_ensures((HR_TA < (GR_NEW ? 10 : 2) && (k) < HR_TA &&                             \
                            (GR_NEW || GR_BS == ISAL_GZIP_EXTRA_LEN || GR_BS == ISAL_GZIP_HCRC)) ==> \
                           state->tmp_in_buffer[k] == HR_V(k))
+/* Case split on the number of carried bytes (harness instances -DHR_FIX_T=0..9): the requires fixes T and
+ * the E_ hook re-assigns that very value, which lets the symbolic executor propagate the constant (it
+ * then knows whether the fixed-size field is read from the input or from tmp_in_buffer; with T symbolic
+ * every header byte is a read at a symbolic offset of the 87 KB state struct and the harness needs
+ * gigabytes).  The union of the instances is the contract for every T the well-formedness allows. */
+#ifdef HR_FIX_T
+#define GR_FIX_T_REQ __CPROVER_requires(state->tmp_in_size == HR_FIX_T)
+#define GR_FIX_T_SET state->tmp_in_size = HR_FIX_T;
+#else
+#define GR_FIX_T_REQ
+#define GR_FIX_T_SET
+#endif
+/* the same device for the entry point (-DHR_FIX_BS=ISAL_GZIP_NAME ...): only the code behind that resume
+ * label is explored */
+#ifdef HR_FIX_BS
+#define GR_FIX_BS_REQ __CPROVER_requires(state->block_state == HR_FIX_BS)
+#define GR_FIX_BS_SET state->block_state = HR_FIX_BS;
+#else
+#define GR_FIX_BS_REQ
+#define GR_FIX_BS_SET
+#endif
+#define E_isal_read_gzip_header                                                                    \
+        GR_FIX_T_SET                                                                               \
+        GR_FIX_BS_SET                                                                              \
+        HR_TOP_ENTRY
 #define C_isal_read_gzip_header                                                                    \
         HR_STATE_FRESH                                                                             \
+        GR_FIX_T_REQ                                                                               \
+        GR_FIX_BS_REQ                                                                              \
         __CPROVER_requires(__CPROVER_is_fresh(gz_hdr, sizeof(*gz_hdr)))                            \
         __CPROVER_requires(gz_hdr->extra == NULL ||                                                \
                            __CPROVER_is_fresh(gz_hdr->extra, gz_hdr->extra_buf_len))               \
@@ -302,6 +397,9 @@ extern struct inflate_state *g_hdr_state;
         __CPROVER_requires(gz_hdr->comment == NULL ||                                              \
                            __CPROVER_is_fresh(gz_hdr->comment, gz_hdr->comment_buf_len))           \
         __CPROVER_requires(HR_WF_GZIP && state->avail_in <= HR_MAX_AVAIL)                          \
+        HR_BOUNDED(gz_hdr->extra_buf_len)                                                          \
+        HR_BOUNDED(gz_hdr->name_buf_len)                                                           \
+        HR_BOUNDED(gz_hdr->comment_buf_len)                                                        \
         __CPROVER_requires(g_sn == g_i)                                                            \
         __CPROVER_assigns(state->next_in, state->avail_in, state->tmp_in_size, state->block_state, \
                           state->wrapper_flag, state->count, g_hdr_state,                          \
@@ -315,13 +413,14 @@ extern struct inflate_state *g_hdr_state;
                           gz_hdr->comment != NULL                                                  \
                           : __CPROVER_object_upto(gz_hdr->comment, gz_hdr->comment_buf_len))       \
         __CPROVER_assigns(w_len_a, w_len_b, w_crc_seed, w_crc_ret, w_crc_buf, w_crc_len,           \
-                          w_crc_calls)                                                             \
+                          w_crc_calls, g_top, g_in0, g_end, g_a0)                                  \
         /* (a) documented statuses  (b) input accounting */                                        \
         __CPROVER_ensures(GR_RET == ISAL_DECOMP_OK || GR_RET == ISAL_END_INPUT ||                  \
                           GR_RET == ISAL_NAME_OVERFLOW || GR_RET == ISAL_COMMENT_OVERFLOW ||       \
                           GR_RET == ISAL_EXTRA_OVERFLOW || GR_RET == ISAL_INVALID_WRAPPER ||       \
                           GR_RET == ISAL_UNSUPPORTED_METHOD || GR_RET == ISAL_INCORRECT_CHECKSUM)  \
-        __CPROVER_ensures(HR_IO_OK)                                                                \
+        __CPROVER_ensures(state->avail_in <= HR_A)                                                 \
+        __CPROVER_ensures(HR_END_OK)                                                               \
         __CPROVER_ensures(GR_RET == ISAL_END_INPUT ==> state->avail_in == 0)                       \
         /* success */                                                                              \
         __CPROVER_ensures(GR_RET == ISAL_DECOMP_OK ==>                                             \
@@ -353,6 +452,23 @@ extern struct inflate_state *g_hdr_state;
         __CPROVER_ensures((GR_VALID && (GR_FLG & 0x1e) == 0) ==>                                   \
                           (GR_RET == ISAL_DECOMP_OK && HR_USED == 10 - HR_T &&                     \
                            gz_hdr->extra_len == 0))                                                \
+        /* FLG bit positions: with exactly one optional field announced, a resumable status can    \
+         * only come from that field */                                                            \
+        __CPROVER_ensures((GR_VALID && (GR_FLG & 0x1e) == 0x08 && GR_RESUMABLE) ==>                \
+                          (state->block_state == ISAL_GZIP_NAME &&                                 \
+                           (GR_RET == ISAL_END_INPUT || GR_RET == ISAL_NAME_OVERFLOW)))            \
+        __CPROVER_ensures((GR_VALID && (GR_FLG & 0x1e) == 0x10 && GR_RESUMABLE) ==>                \
+                          (state->block_state == ISAL_GZIP_COMMENT &&                              \
+                           (GR_RET == ISAL_END_INPUT || GR_RET == ISAL_COMMENT_OVERFLOW)))         \
+        __CPROVER_ensures((GR_VALID && (GR_FLG & 0x1e) == 0x04 && GR_RESUMABLE) ==>                \
+                          ((state->block_state == ISAL_GZIP_EXTRA_LEN ||                           \
+                            state->block_state == ISAL_GZIP_EXTRA) &&                              \
+                           (GR_RET == ISAL_END_INPUT || GR_RET == ISAL_EXTRA_OVERFLOW)))           \
+        __CPROVER_ensures((GR_VALID && (GR_FLG & 0x1e) == 0x02) ==>                                \
+                          ((GR_RET == ISAL_DECOMP_OK || GR_RET == ISAL_INCORRECT_CHECKSUM ||       \
+                            (GR_RET == ISAL_END_INPUT && state->block_state == ISAL_GZIP_HCRC)) && \
+                           w_crc_calls == __CPROVER_old(w_crc_calls) + 1 &&                        \
+                           w_crc_len == 10 - HR_T))                                                \
         /* XLEN, least-significant byte first */                                                   \
         __CPROVER_ensures((GR_VALID && (GR_FLG & 4) && HR_TA >= 12) ==>                            \
                           gz_hdr->extra_len == GR_LE16(HR_IN[10 - HR_T], HR_IN[11 - HR_T]))        \
